@@ -229,7 +229,35 @@ def num(v):
     raise OutOfSubset(f"numeric value expected, got {type(v).__name__}")
 
 
+class TypeOfV:
+    """type(x) of a modelled value; only `type(x) is <class>` / `is not` is modelled"""
+
+    def __init__(self, v):
+        self.v = v.arr if isinstance(v, MapList) else v
+
+
+def type_is(ex, tv, cls):
+    name = cls.name if isinstance(cls, LibFn) else (cls if isinstance(cls, str) else getattr(cls, "path", None))
+    v = tv.v
+    if name in ("ndarray", "numpy.ndarray"):
+        if isinstance(v, ArrV):
+            if labels_of(v) is not None:
+                return False   # a pandas Series
+            if ex.trail is None:
+                raise OutOfSubset("type(x) is ndarray in a context without path enumeration")
+            # exactly an ndarray, or an instance of a subclass (masked array, matrix): not known to the contract - both explored
+            return ex.decide(tm.var(f"type_is_exactly_ndarray({getattr(v, 'name', 'array')})", tm.B))
+        return False
+    raise OutOfSubset(f"type(...) is {name}")
+
+
 def compare(ex, op, a, b):
+    if isinstance(op, (ast.Is, ast.IsNot)) and (isinstance(a, TypeOfV) or isinstance(b, TypeOfV)):
+        tv, other = (a, b) if isinstance(a, TypeOfV) else (b, a)
+        if isinstance(other, TypeOfV):
+            raise OutOfSubset("comparison of two type(...) values")
+        r = type_is(ex, tv, other)
+        return r if isinstance(op, ast.Is) else (not r)
     if isinstance(op, (ast.Is, ast.IsNot)):
         r = (a is b) or (a is None and b is None)
         if isinstance(a, T) and isinstance(b, T):
@@ -1227,6 +1255,7 @@ def b_range(ex, *args):
 
 BUILTINS = {
     "len": LibFn("len", b_len),
+    "type": LibFn("type", lambda ex, v: TypeOfV(v)),
     "min": LibFn("min", b_minmax("min")),
     "max": LibFn("max", b_minmax("max")),
     "sum": LibFn("sum", b_sum),
@@ -2135,6 +2164,8 @@ for _mod in ("numpy",):
     _reg(_mod + ".gradient", np_gradient)
     _reg(_mod + ".result_type", np_result_type)
     _reg(_mod + ".vectorize", np_vectorize)
+    for _nm, _op in (("true_divide", ast.Div), ("divide", ast.Div), ("multiply", ast.Mult), ("add", ast.Add), ("subtract", ast.Sub)):
+        _reg(_mod + "." + _nm, (lambda ex, a, b, _op=_op: binop(ex, _op(), a, b)))
     REGISTRY[_mod + ".float64"] = DTypeV("f8")
     _reg(_mod + ".dtype", lambda ex, d: DTypeV(dtype_code(d)))
     REGISTRY[_mod + ".float32"] = DTypeV("f4")
